@@ -25,9 +25,9 @@ theorem next_total (s : SlowStochastic F) (x : F) (h : WF s) :
   try simp only [gen_helper]
   simp only [Option.bind_eq_bind, Option.pure_def]
   -- the FastStochastic step, then the EMA step on whatever it is fed
-  refine FastStochastic.bind_total (FastStochastic.next_total _ _ h.fast) ?_
+  refine bind_total (FastStochastic.next_total _ _ h.fast) ?_
   rintro ⟨fs', k⟩ ⟨w1, p1⟩
-  refine FastStochastic.bind_total (ExponentialMovingAverage.next_total _ _ h.ema) ?_
+  refine bind_total (ExponentialMovingAverage.next_total _ _ h.ema) ?_
   rintro ⟨em', v⟩ ⟨w2, p2⟩
   exact ⟨_, rfl, ⟨w1, w2⟩, p1, p2⟩
 
@@ -37,9 +37,9 @@ theorem nextBar_total (s : SlowStochastic F) (b : Bar F) (h : WF s) :
   unfold nextBar
   try simp only [gen_helper]
   simp only [Option.bind_eq_bind, Option.pure_def]
-  refine FastStochastic.bind_total (FastStochastic.nextBar_total _ _ h.fast) ?_
+  refine bind_total (FastStochastic.nextBar_total _ _ h.fast) ?_
   rintro ⟨fs', k⟩ ⟨w1, p1⟩
-  refine FastStochastic.bind_total (ExponentialMovingAverage.next_total _ _ h.ema) ?_
+  refine bind_total (ExponentialMovingAverage.next_total _ _ h.ema) ?_
   rintro ⟨em', v⟩ ⟨w2, p2⟩
   exact ⟨_, rfl, ⟨w1, w2⟩, p1, p2⟩
 
